@@ -18,6 +18,9 @@
 (*   shutdown_aborts_before_session  shutdown() calls terminate() on every *)
 (*        handler; one without a session raises, the call fails and the    *)
 (*        remaining handlers are never asked                               *)
+(*   shutdown_closes_terminating  (a first repair of the previous one)     *)
+(*        shutdown() treats "already terminating" like "no session yet"    *)
+(*        and closes the connection: transfers in progress are cut         *)
 (***************************************************************************)
 EXTENDS TcpclAgentObs
 
@@ -30,9 +33,11 @@ VARIABLES hdl,        \* [agent -> Seq([c, st])] the agent's handler list, in cr
           inShut,     \* [agent -> BOOLEAN] _in_shutdown
           listening,  \* P's listening socket is open
           stopped,    \* [agent -> Nat] on-stop callbacks
+          busy,       \* set of <<agent, c>>: a transfer of that agent on connection c is in progress
+          xferd,      \* set of <<agent, c>> which have had their transfer (one each keeps the model finite)
           pend, allOk
 
-mvars == <<hdl, acceptQ, nConn, sockOpen, inShut, listening, stopped, pend, allOk>>
+mvars == <<hdl, acceptQ, nConn, sockOpen, inShut, listening, stopped, busy, xferd, pend, allOk>>
 vars == <<avars, mvars>>
 
 SockId(w, c) == IF w = "A" THEN 2 * c - 1 ELSE 2 * c
@@ -50,6 +55,8 @@ EvStopped(w) == [a |-> "Stopped", who |-> w]
 
 \* Connection.close of handler c of agent w: socket closed, on_close -> _unbind_handler (signal, list removal)
 CloseEvents(w, c) == <<EvSockClosed(w, c), EvClosed(w, c)>>
+\* closing handlers cs of agent w cuts the transfers in progress there (nothing is announced for them)
+Cut(w, cs) == busy \ {<<w, c>> : c \in cs}
 
 Idle == pend = <<>>
 
@@ -65,7 +72,7 @@ Connect ==
      /\ acceptQ' = Append(acceptQ, c)
      /\ pend' = <<EvSockOpen("A", c), EvSockOpen("P", c), EvOpened("A", c),
                   [a |-> "Connect", who |-> "A", ok |-> TRUE, path |-> Path(c)]>>
-  /\ UNCHANGED <<inShut, listening, stopped, allOk, avars>>
+  /\ UNCHANGED <<inShut, listening, stopped, busy, xferd, allOk, avars>>
 
 \* P._accept
 Accept ==
@@ -74,7 +81,7 @@ Accept ==
      /\ acceptQ' = Tail(acceptQ)
      /\ hdl' = [hdl EXCEPT !["P"] = Append(@, [c |-> c, st |-> "neg"])]
      /\ pend' = <<EvOpened("P", c)>>
-  /\ UNCHANGED <<nConn, sockOpen, inShut, listening, stopped, allOk, avars>>
+  /\ UNCHANGED <<nConn, sockOpen, inShut, listening, stopped, busy, xferd, allOk, avars>>
 
 \* the contact header and SESS_INIT exchange of connection c completes on both sides
 Establish(c) ==
@@ -82,7 +89,26 @@ Establish(c) ==
   /\ StateOf("A", c) = "neg" /\ StateOf("P", c) = "neg"
   /\ hdl' = [w \in Agents |-> SetSt(hdl[w], c, "est")]
   /\ pend' = <<>>
-  /\ UNCHANGED <<acceptQ, nConn, sockOpen, inShut, listening, stopped, allOk, avars>>
+  /\ UNCHANGED <<acceptQ, nConn, sockOpen, inShut, listening, stopped, busy, xferd, allOk, avars>>
+
+\* a transfer of agent w on connection c: first segment sent (announced), later completely acknowledged
+StartXfer(w, c) ==
+  /\ Idle /\ c \in Conns(w) /\ StateOf(w, c) = "est" /\ <<w, c>> \notin xferd
+  /\ busy' = busy \cup {<<w, c>>} /\ xferd' = xferd \cup {<<w, c>>}
+  /\ pend' = <<[a |-> "XferStart", who |-> w, path |-> Path(c), id |-> 1]>>
+  /\ UNCHANGED <<hdl, acceptQ, nConn, sockOpen, inShut, listening, stopped, allOk, avars>>
+FinishXfer(w, c) ==
+  /\ Idle /\ <<w, c>> \in busy /\ c \in Conns(w) /\ c \in Conns(Other(w))
+  /\ c \in sockOpen[w] /\ c \in sockOpen[Other(w)]
+  /\ busy' = busy \ {<<w, c>>}
+  /\ pend' = <<[a |-> "XferFin", who |-> w, path |-> Path(c), id |-> 1, result |-> "success"]>>
+  /\ UNCHANGED <<hdl, acceptQ, nConn, sockOpen, inShut, listening, stopped, xferd, allOk, avars>>
+\* the user of one connection asks that session to terminate (ContactHandler.terminate)
+TermOne(w, c) ==
+  /\ Idle /\ c \in Conns(w) /\ StateOf(w, c) = "est" /\ ~shutReq[w] /\ ~stopReq[w]
+  /\ hdl' = [hdl EXCEPT ![w] = SetSt(@, c, "term")]
+  /\ pend' = <<[a |-> "HdlTerm", who |-> w, path |-> Path(c), ok |-> TRUE]>>
+  /\ UNCHANGED <<acceptQ, nConn, sockOpen, inShut, listening, stopped, busy, xferd, allOk, avars>>
 
 \* stop(): listening sockets closed, every handler closed, removed from the bus, on_stop
 \* (_unbind_handler calls stop() again when the last handler goes while shutting down: same effect)
@@ -113,12 +139,13 @@ DoStop(w, hs, more) ==
   /\ listening' = (IF w = "P" THEN FALSE ELSE listening)
   /\ acceptQ' = (IF w = "P" THEN <<>> ELSE acceptQ)
   /\ stopped' = [stopped EXCEPT ![w] = @ + 1]
+  /\ busy' = Cut(w, {hs[i].c : i \in DOMAIN hs} \ {Survivors(hs)[i].c : i \in DOMAIN Survivors(hs)})
   /\ pend' = QueueDropEvents(w) \o StopEvents(w, hs) \o <<EvStopped(w)>> \o more
 
 Stop(w) ==
   /\ Idle /\ ~stopReq[w]
   /\ DoStop(w, hdl[w], <<[a |-> "Stop", who |-> w, ok |-> TRUE]>>)
-  /\ UNCHANGED <<nConn, inShut, allOk, avars>>
+  /\ UNCHANGED <<nConn, inShut, xferd, allOk, avars>>
 
 \* shutdown(): ask every session to terminate; a connection without a session is simply closed
 Shutdown(w) ==
@@ -134,9 +161,11 @@ Shutdown(w) ==
           IN /\ hdl' = [hdl EXCEPT ![w] = [i \in DOMAIN @ |-> IF i < first /\ @[i].st = "est"
                                                                 THEN [@[i] EXCEPT !.st = "term"] ELSE @[i]]]
              /\ pend' = <<[a |-> "Shutdown", who |-> w, ok |-> FALSE, immediate |-> FALSE]>>
-             /\ UNCHANGED <<sockOpen, listening, stopped>>
-     ELSE LET negs == SelectSeq(hdl[w], LAMBDA h : h.st = "neg")
-              rest == SelectSeq(hdl[w], LAMBDA h : h.st # "neg")
+             /\ UNCHANGED <<sockOpen, listening, stopped, busy>>
+     ELSE LET \* connections closed on the spot: those without a session (and, deviation, those already terminating)
+              Abrupt(h) == h.st = "neg" \/ ("shutdown_closes_terminating" \in Dev /\ h.st = "term")
+              negs == SelectSeq(hdl[w], LAMBDA h : Abrupt(h))
+              rest == SelectSeq(hdl[w], LAMBDA h : ~Abrupt(h))
               rest2 == [i \in DOMAIN rest |-> [rest[i] EXCEPT !.st = "term"]]
               closeEv == LET RECURSIVE Ev(_)
                              Ev(s) == IF s = <<>> THEN <<>> ELSE CloseEvents(w, Head(s).c) \o Ev(Tail(s))
@@ -147,41 +176,56 @@ Shutdown(w) ==
                   /\ sockOpen' = [sockOpen EXCEPT ![w] = @ \ {negs[i].c : i \in DOMAIN negs}]
                   /\ listening' = (IF w = "P" THEN FALSE ELSE listening)
                   /\ stopped' = [stopped EXCEPT ![w] = @ + 1]
+                  /\ busy' = Cut(w, {negs[i].c : i \in DOMAIN negs})
                   /\ pend' = closeEv \o <<EvStopped(w), [a |-> "Shutdown", who |-> w, ok |-> TRUE, immediate |-> TRUE]>>
              ELSE /\ hdl' = [hdl EXCEPT ![w] = rest2]
                   /\ sockOpen' = [sockOpen EXCEPT ![w] = @ \ {negs[i].c : i \in DOMAIN negs}]
+                  /\ busy' = Cut(w, {negs[i].c : i \in DOMAIN negs})
                   /\ pend' = closeEv \o <<[a |-> "Shutdown", who |-> w, ok |-> TRUE, immediate |-> FALSE]>>
                   /\ UNCHANGED <<listening, stopped>>
-  /\ UNCHANGED <<acceptQ, nConn, allOk, avars>>
+  /\ UNCHANGED <<acceptQ, nConn, xferd, allOk, avars>>
 
 \* handler c of agent w closes (termination exchange finished, or the peer's socket is gone):
 \* if it was the last one of an agent that is shutting down, the agent stops
 HandlerCloses(w, c) ==
   LET left == Without(hdl[w], c) IN
-  IF left = <<>> /\ inShut[w]
-  THEN /\ hdl' = [hdl EXCEPT ![w] = <<>>]
-       /\ sockOpen' = [sockOpen EXCEPT ![w] = @ \ {c}]
-       /\ listening' = (IF w = "P" THEN FALSE ELSE listening)
-       /\ stopped' = [stopped EXCEPT ![w] = @ + 1]
-       /\ pend' = CloseEvents(w, c) \o <<EvStopped(w)>>
-  ELSE /\ hdl' = [hdl EXCEPT ![w] = left]
-       /\ sockOpen' = [sockOpen EXCEPT ![w] = @ \ {c}]
-       /\ pend' = CloseEvents(w, c)
-       /\ UNCHANGED <<listening, stopped>>
+  /\ busy' = Cut(w, {c})
+  /\ IF left = <<>> /\ inShut[w]
+     THEN /\ hdl' = [hdl EXCEPT ![w] = <<>>]
+          /\ sockOpen' = [sockOpen EXCEPT ![w] = @ \ {c}]
+          /\ listening' = (IF w = "P" THEN FALSE ELSE listening)
+          /\ stopped' = [stopped EXCEPT ![w] = @ + 1]
+          /\ pend' = CloseEvents(w, c) \o <<EvStopped(w)>>
+     ELSE /\ hdl' = [hdl EXCEPT ![w] = left]
+          /\ sockOpen' = [sockOpen EXCEPT ![w] = @ \ {c}]
+          /\ pend' = CloseEvents(w, c)
+          /\ UNCHANGED <<listening, stopped>>
 
 \* the SESS_TERM exchange of a connection with a terminating side finishes on side w
 TermDone(w, c) ==
   /\ Idle /\ c \in Conns(w)
-  /\ \/ StateOf(w, c) = "term"
-     \/ (c \in Conns(Other(w)) /\ StateOf(Other(w), c) = "term" /\ StateOf(w, c) = "est")
+  \* (this side closes once it has sent its own SESS_TERM and acted on the peer's)
+  /\ StateOf(w, c) = "term"
+  /\ c \in Conns(Other(w)) => StateOf(Other(w), c) = "term"
+  \* (the exchange only finishes once the transfers in progress in both directions are complete; when the
+  \* other side is gone this side closes through PeerGone)
+  /\ <<w, c>> \notin busy /\ <<Other(w), c>> \notin busy
   /\ HandlerCloses(w, c)
-  /\ UNCHANGED <<acceptQ, nConn, inShut, allOk, avars>>
+  /\ UNCHANGED <<acceptQ, nConn, inShut, xferd, allOk, avars>>
+
+\* side w acts on the SESS_TERM of the other side: it answers with its own and starts no new transfer
+RecvTerm(w, c) ==
+  /\ Idle /\ c \in Conns(w) /\ StateOf(w, c) = "est"
+  /\ c \in Conns(Other(w)) /\ StateOf(Other(w), c) = "term"
+  /\ hdl' = [hdl EXCEPT ![w] = SetSt(@, c, "term")]
+  /\ pend' = <<>>
+  /\ UNCHANGED <<acceptQ, nConn, sockOpen, inShut, listening, stopped, busy, xferd, allOk, avars>>
 
 \* the peer's socket of connection c is closed: this side reads end-of-file and closes
 PeerGone(w, c) ==
   /\ Idle /\ c \in Conns(w) /\ c \notin sockOpen[Other(w)]
   /\ HandlerCloses(w, c)
-  /\ UNCHANGED <<acceptQ, nConn, inShut, allOk, avars>>
+  /\ UNCHANGED <<acceptQ, nConn, inShut, xferd, allOk, avars>>
 
 \* a connection still in P's listen queue when P stops listening: the socket is dropped by the kernel
 DropQueued ==
@@ -190,7 +234,7 @@ DropQueued ==
      /\ acceptQ' = Tail(acceptQ)
      /\ sockOpen' = [sockOpen EXCEPT !["P"] = @ \ {c}]
      /\ pend' = <<EvSockClosed("P", c)>>
-  /\ UNCHANGED <<hdl, nConn, inShut, listening, stopped, allOk, avars>>
+  /\ UNCHANGED <<hdl, nConn, inShut, listening, stopped, busy, xferd, allOk, avars>>
 
 Query(w) ==
   /\ Idle
@@ -198,7 +242,7 @@ Query(w) ==
                 paths |-> LET RECURSIVE Sq(_)
                               Sq(S) == IF S = {} THEN <<>> ELSE LET x == CHOOSE y \in S : TRUE IN <<Path(x)>> \o Sq(S \ {x})
                           IN Sq(Conns(w))]>>
-  /\ UNCHANGED <<hdl, acceptQ, nConn, sockOpen, inShut, listening, stopped, allOk, avars>>
+  /\ UNCHANGED <<hdl, acceptQ, nConn, sockOpen, inShut, listening, stopped, busy, xferd, allOk, avars>>
 
 Drain ==
   /\ pend # <<>>
@@ -207,10 +251,10 @@ Drain ==
        /\ Upd(ev)
        /\ tid' = tid /\ l' = l
   /\ pend' = Tail(pend)
-  /\ UNCHANGED <<hdl, acceptQ, nConn, sockOpen, inShut, listening, stopped>>
+  /\ UNCHANGED <<hdl, acceptQ, nConn, sockOpen, inShut, listening, stopped, busy, xferd>>
 
-Loop == Accept \/ DropQueued \/ \E w \in Agents, c \in 1..MaxConn : Establish(c) \/ TermDone(w, c) \/ PeerGone(w, c)
-User == Connect \/ \E w \in Agents : Stop(w) \/ Shutdown(w)
+Loop == Accept \/ DropQueued \/ \E w \in Agents, c \in 1..MaxConn : Establish(c) \/ TermDone(w, c) \/ RecvTerm(w, c) \/ PeerGone(w, c) \/ FinishXfer(w, c)
+User == Connect \/ \E w \in Agents : Stop(w) \/ Shutdown(w) \/ \E c \in 1..MaxConn : StartXfer(w, c) \/ TermOne(w, c)
 Next == Drain \/ Loop \/ User
 
 Init ==
@@ -218,6 +262,7 @@ Init ==
   /\ hdl = [w \in Agents |-> <<>>] /\ acceptQ = <<>> /\ nConn = 0
   /\ sockOpen = [w \in Agents |-> {}] /\ inShut = [w \in Agents |-> FALSE]
   /\ listening = TRUE /\ stopped = [w \in Agents |-> 0]
+  /\ busy = {} /\ xferd = {}
   /\ pend = <<>> /\ allOk = TRUE
 
 Spec == Init /\ [][Next]_vars
@@ -225,7 +270,7 @@ Spec == Init /\ [][Next]_vars
 \* callback graph has no cycles and weak fairness is enough, cf. TcpclSession)
 FairSpec == Spec /\ WF_vars(Drain) /\ WF_vars(Accept) /\ WF_vars(DropQueued)
                  /\ \A c \in 1..MaxConn : WF_vars(Establish(c))
-                 /\ \A w \in Agents, d \in 1..MaxConn : WF_vars(TermDone(w, d)) /\ WF_vars(PeerGone(w, d))
+                 /\ \A w \in Agents, d \in 1..MaxConn : WF_vars(TermDone(w, d)) /\ WF_vars(PeerGone(w, d)) /\ WF_vars(FinishXfer(w, d)) /\ WF_vars(RecvTerm(w, d))
 \* a shutdown or stop request always ends with the agent stopped and none of its connections open anywhere
 EndLive == \A w \in Agents : (shutReq[w] \/ stopReq[w]) ~> (stopped[w] >= 1 /\ hdl[w] = <<>> /\ sockOpen[w] = {})
 PeerLive == \A w \in Agents : (shutReq[w] \/ stopReq[w]) ~> (\A c \in 1..MaxConn : c \in sockOpen[Other(w)] => c \in sockOpen[w])
